@@ -8,6 +8,7 @@ from concurrent.futures import ThreadPoolExecutor
 
 VERIF = os.path.dirname(os.path.dirname(os.path.abspath(__file__)))
 REPO = os.environ.get('VERIF_REPO', '/repo')
+REPO_PREFIX = REPO.rstrip('/') + '/'
 TOOL = os.path.join(VERIF, 'tool', 'simfacts')
 TOOL_SRC = os.path.join(VERIF, 'tool', 'simfacts.cc')
 INSTANTIATE = os.path.join(VERIF, 'tool', 'instantiate.cpp')
@@ -582,3 +583,25 @@ def load_facts(extra_flags=(), repo=None):
             pass
     _FACTS[key] = fx
     return fx
+
+
+def extract_units(units, roots, extra_flags=(), tag='units'):
+    """Fact files for arbitrary translation units (self-test corpus)."""
+    build_tool()
+    flags = BASE_FLAGS + list(extra_flags) + ['-resource-dir', resource_dir(), '-w']
+    h = hashlib.sha256()
+    for u in sorted(units) + [TOOL_SRC]:
+        h.update(u.encode()); h.update(open(u, 'rb').read())
+    h.update(' '.join(flags).encode())
+    d = os.path.join(CACHE, tag + '-' + h.hexdigest()[:20])
+    if os.path.exists(os.path.join(d, 'DONE')):
+        return d
+    os.makedirs(d, exist_ok=True)
+    jobs = [(u, os.path.join(d, os.path.basename(u).rsplit('.', 1)[0] + '.json')) for u in units]
+    with ThreadPoolExecutor(max_workers=8) as ex:
+        res = list(ex.map(lambda j: (j,) + run_extractor(j[0], j[1], flags, roots), jobs))
+    for (u, o), rc, err in res:
+        if rc != 0 or not os.path.exists(o) or json.load(open(o)).get('errors', 0):
+            raise AnalysisBroken('extractor failed on %s: %s' % (u, err[-1500:]))
+    open(os.path.join(d, 'DONE'), 'w').write(time.ctime())
+    return d
